@@ -1,10 +1,6 @@
 package main
 
-func rulesPureAlign(c *Ctx, r *Report) {}
 
-func rulesEffC12(c *Ctx, r *Report) {}
 
-func rulesEffC13(c *Ctx, r *Report) {}
 
-func rulesEffC14(c *Ctx, r *Report) {}
 
